@@ -21,7 +21,9 @@ CONTROL = ["phi", "jmp", "jnz", "djmp", "assert", "assert_unreachable", "return"
 # constant environment words (index = k of O_env k); only those whose value the harness controls on the EVM side
 ENV = ["caller", "callvalue", "address", "origin", "timestamp", "number", "chainid"]
 MODELLED = SIMPLE + EXTERNAL + CONTROL + ["alloca"] + ENV
-NO_REVERSE = ("jmp", "jnz", "djmp", "phi", "dret", "retfmp")
+# `istore`: the IR holds operands = [offset, val] (the value is on top of the stack, the generator emits SWAP1 MSTORE);
+# Venom.v's eff_sem reads O_istore [p; v] offset first, so the internal order is kept (found by b-range's ISel proof)
+NO_REVERSE = ("jmp", "jnz", "djmp", "phi", "dret", "retfmp", "istore")
 
 _BOOL_T = re.compile(r"(?<=[ ,])True\b")
 _BOOL_F = re.compile(r"(?<=[ ,])False\b")
